@@ -60,7 +60,7 @@ def const_int(n, tn):
 
 class StrV:
     """str-lite: an immutable string slice value (&str) or the content of a String object"""
-    __slots__ = ('len', 'lits', 'first', 'ascii', 'ident', 'digits')
+    __slots__ = ('len', 'lits', 'first', 'ascii', 'ident', 'digits', 'tail_digits', 'nchars', 'rest_of')
     _ids = itertools.count(1)
 
     def __init__(self, len_vid, lits=None, first=None, ascii_=None, ident=None, digits=False):
@@ -70,6 +70,9 @@ class StrV:
         self.ascii = ascii_
         self.ident = ident if ident is not None else next(StrV._ids)
         self.digits = digits
+        self.tail_digits = False
+        self.nchars = None      # (lo, hi) number of chars when known
+        self.rest_of = None     # (ident of the string this is the tail of, chars taken before it)
 
     def __repr__(self):
         return f'StrV(len=v{self.len}, lits={sorted(self.lits) if self.lits else None}, first={self.first!r}, ascii={self.ascii}, id={self.ident})'
@@ -105,7 +108,7 @@ class Budget(Exception):
 
 
 class Interp:
-    def __init__(self, facts, unroll=16, max_disj=400, max_steps=2000000):
+    def __init__(self, facts, unroll=3, max_disj=400, max_steps=2000000):
         self.facts = facts
         self.bodies = facts.bodies
         self.adts = facts.adts
@@ -120,6 +123,7 @@ class Interp:
         self.observers = {}     # fn id -> callable(interp, st, args, site)   (called before the call is executed)
         self.agg_hooks = []     # callable(interp, st, path, variant, fields, site)
         self.panic_hooks = []
+        self.unroll_for = {'util::date::convert::days_to_date': 16, 'util::date::convert::weekdays_in_month': 8}
         self.return_hooks = []  # callable(interp, fn, depth, results) at every return of an inlined crate function
         self.cur_entry = None
         self.stack = []
@@ -270,8 +274,10 @@ class Interp:
                 return dur_top(self, st, name)
             if p in ('std::ops::RangeInclusive', 'std::ops::Range'):
                 e = ty['args'][0]
-                return ('s', p, (self.top(st, e, name + '.start', depth + 1), self.top(st, e, name + '.end', depth + 1),
-                                 const_int(0, 'bool')), None)
+                fs = (self.top(st, e, name + '.start', depth + 1), self.top(st, e, name + '.end', depth + 1))
+                if p == 'std::ops::RangeInclusive':
+                    fs = fs + (const_int(0, 'bool'),)
+                return ('s', p, fs, None)
             return ('top', ty)
         if k == 'ref' or k == 'ptr':
             to = ty['to']
@@ -323,11 +329,34 @@ class Interp:
         return (0, c, ())
 
     # ------------------------------------------------------------------ places
+    def subst_ty(self, ty, sub):
+        if not sub or ty is None:
+            return ty
+        k = ty.get('k')
+        if k == 'param':
+            return sub.get(ty['name'], ty)
+        if k in ('ref', 'ptr'):
+            t = self.subst_ty(ty['to'], sub)
+            return ty if t is ty['to'] else dict(ty, to=t)
+        if k == 'tuple':
+            es = [self.subst_ty(t, sub) for t in ty['elems']]
+            return ty if all(a is b for a, b in zip(es, ty['elems'])) else dict(ty, elems=es)
+        if k in ('slice', 'array'):
+            t = self.subst_ty(ty['elem'], sub)
+            return ty if t is ty['elem'] else dict(ty, elem=t)
+        if k == 'adt' and ty.get('args'):
+            es = [self.subst_ty(t, sub) for t in ty['args']]
+            return ty if all(a is b for a, b in zip(es, ty['args'])) else dict(ty, args=es)
+        return ty
+
     def local_ty(self, st, fid, local):
-        b = st.frames[fid].get(-1)
+        fr = st.frames[fid]
+        b = fr.get(-1)
         if b is None:
             return None
-        return self.bodies[b]['locals'][local]
+        ty = self.bodies[b]['locals'][local]
+        sub = fr.get(-2)
+        return self.subst_ty(ty, sub) if sub else ty
 
     def proj_ty(self, ty, p):
         if ty is None:
@@ -846,9 +875,34 @@ class Interp:
             x, y = a[1], b[1]
             lv = self.join_val(out, s1, s2, ('i', x['len'], 'usize'), ('i', y['len'], 'usize'), widen)[1]
             return ('slice', {'len': lv, 'elems': None, 'elem_ty': x.get('elem_ty'), 'ident': x['ident'] if x['ident'] == y['ident'] else next(StrV._ids)})
+        if k == 'it':
+            return self.join_iter(out, s1, s2, a, b, widen)
         if k == 'clo' and a[1] == b[1] and len(a[2]) == len(b[2]):
             return ('clo', a[1], tuple(self.join_val(out, s1, s2, x, y, widen) for x, y in zip(a[2], b[2])))
         return ('top', None)
+
+    def join_iter(self, out, s1, s2, a, b, widen=False):
+        """join of two abstract iterators (same construction, different progress)"""
+        if a[1] != b[1]:
+            return ('it', 'unk', None, None)
+        kd = a[1]
+        if kd == 'seq':
+            if a[2] is b[2] or a[2] == b[2]:
+                p = min(a[3], b[3])
+                return ('it', 'anyof', a[2][p:], a[4])
+            return ('it', 'unk', None, None)
+        if kd == 'anyof':
+            ea = a[2] if len(a[2]) >= len(b[2]) else b[2]
+            return ('it', 'anyof', ea, a[3])
+        if kd == 'enum':
+            return ('it', 'enum', self.join_iter(out, s1, s2, a[2], b[2], widen) if a[2][0] == 'it' and b[2][0] == 'it' else a[2], a[3] if a[3] == b[3] else None)
+        if kd in ('zip',):
+            return ('it', 'zip', self.join_val(out, s1, s2, a[2], b[2], widen), self.join_val(out, s1, s2, a[3], b[3], widen))
+        if kd == 'chars':
+            return ('it', 'chars', a[2], a[3] if a[3] == b[3] else None) if a[2] is b[2] or a[2].ident == b[2].ident else ('it', 'unk', {'k': 'char'}, None)
+        if kd in ('vec', 'strs', 'sub', 'chunks', 'unk'):
+            return a if a == b or kd in ('vec', 'strs', 'unk') else ('it', 'unk', None, None)
+        return ('it', 'unk', None, None)
 
     def join_obj(self, out, s1, s2, a, b, widen=False):
         if a is b:
@@ -876,12 +930,17 @@ class Interp:
         out.notes = s1.notes
         out.lin = tuple(f for f in s1.lin if any(f[0] == g[0] and f[1:] == g[1:] for g in s2.lin))
         out.tested = s1.tested | s2.tested
+        out.gcmark = max(s1.gcmark, s2.gcmark)
         # intervals of shared vids: hull
         iv2 = s2.iv
+        for v, i2 in iv2.items():
+            if v not in s1.iv:
+                out.iv[v] = i2     # created on that path only (lazy recomputations live in st.lazy, not here)
         for v, i1 in s1.iv.items():
             i2 = iv2.get(v)
             if i2 is None:
-                continue   # unknown on one side: falls back to the global range / defining term (sound)
+                out.iv[v] = i1     # created on this path only: no value of the other path can refer to it
+                continue
             lo, hi = min(i1[0], i2[0]), max(i1[1], i2[1])
             if widen and (lo, hi) != i1:
                 g = D.GRANGE.get(v, (-INF, INF))
@@ -894,6 +953,24 @@ class Interp:
             out.rel[k] = s1.rel[k] | s2.rel[k]
         for oid in set(s1.objs) | set(s2.objs):
             a, b = s1.objs.get(oid), s2.objs.get(oid)
+            if isinstance(oid, tuple):
+                if oid[0] == 'vl':       # links of handed-out element references: keep all
+                    out.objs[oid] = tuple(dict.fromkeys(tuple(a or ()) + tuple(b or ())))
+                elif oid[0] == 'sf':     # facts about a string identity: keep what both sides know
+                    if a and b:
+                        f = {}
+                        if a.get('ascii') and b.get('ascii'):
+                            f['ascii'] = True
+                        pa, pb = a.get('prefixes') or frozenset(), b.get('prefixes') or frozenset()
+                        if pa & pb:
+                            f['prefixes'] = pa & pb
+                        if a.get('first') is not None and a.get('first') == b.get('first'):
+                            f['first'] = a['first']
+                        if a.get('first_vid') is not None and a.get('first_vid') == b.get('first_vid'):
+                            f['first_vid'] = a['first_vid']
+                        if f:
+                            out.objs[oid] = f
+                continue
             if a is None or b is None:
                 out.objs[oid] = a if a is not None else b
             else:
@@ -906,11 +983,13 @@ class Interp:
             f1, f2 = s1.frames[fid], s2.frames[fid]
             fr = {}
             for l in set(f1) | set(f2):
-                if l == -1:
-                    fr[-1] = f1.get(-1)
+                if l == -1 or l == -2:
+                    fr[l] = f1.get(l)
                     continue
                 a, b = f1.get(l), f2.get(l)
                 if a is None or b is None:
+                    if fid == 0:
+                        fr[l] = a if a is not None else b   # heap cells are allocated once: the other path simply has none
                     continue  # unset in one branch: will be re-materialised as top on read
                 fr[l] = self.join_val(out, s1, s2, a, b, widen)
             out.frames[fid] = fr
@@ -933,7 +1012,7 @@ class Interp:
             if fb is None:
                 return False
             for l, va in fa.items():
-                if l == -1:
+                if l == -1 or l == -2:
                     continue
                 vb = fb.get(l)
                 if vb is None:
@@ -941,6 +1020,15 @@ class Interp:
                 if not self.val_leq(a, b, va, vb):
                     return False
         for oid, oa in a.objs.items():
+            if isinstance(oid, tuple):
+                if oid[0] == 'sf':
+                    fb = b.objs.get(oid) or {}
+                    fa = oa or {}
+                    if fb.get('ascii') and not fa.get('ascii'):
+                        return False
+                    if (fb.get('prefixes') or frozenset()) - (fa.get('prefixes') or frozenset()):
+                        return False
+                continue
             ob = b.objs.get(oid)
             if ob is None:
                 continue
@@ -994,6 +1082,15 @@ class Interp:
             return self.val_leq(sa, sb, ('i', a[1]['len'], 'usize'), ('i', b[1]['len'], 'usize'))
         if k == 'r':
             return a[1] == b[1]
+        if k == 'it':
+            if a == b:
+                return True
+            try:
+                return self.join_iter(sb, sa, sb, a, b) == b
+            except Exception:
+                return False
+        if k == 'clo':
+            return a[1] == b[1] and len(a[2]) == len(b[2]) and all(self.val_leq(sa, sb, x, y) for x, y in zip(a[2], b[2]))
         return a == b
 
     # ------------------------------------------------------------------ CFG helpers
@@ -1056,6 +1153,18 @@ class Interp:
         fid = next(self._fid)
         st = st0.clone()
         fr = {-1: fn}
+        gens = [g for g in body.get('generics', ()) if not g.startswith('<')]
+        if gens and isinstance(site, dict):
+            tya = site.get('tyargs') or []
+            sub = {}
+            if body['kind'] == 'Closure':
+                psub = st0.frames.get(site.get('fid'), {}).get(-2) if site.get('fid') in st0.frames else None
+                if psub:
+                    sub = dict(psub)
+            elif len(tya) == len(gens):
+                sub = dict(zip(gens, tya))
+            if sub:
+                fr[-2] = sub
         for i, a in enumerate(args):
             fr[i + 1] = a
         st.frames[fid] = fr
@@ -1091,6 +1200,7 @@ class Interp:
             if fid in s.frames:
                 v = self._relocate(s, fid, v, {})
                 del s.frames[fid]
+            self.gc_state(s, extra=(v,))
             out.append((s, v))
         part = self.return_partition.get(fn)
         if part is not None and len(out) > 1:
@@ -1105,11 +1215,173 @@ class Interp:
                     v = self.join_val(j, s, s2, v, v2)
                     s = j
                 out.append((s, v))
+        if len(out) > 4 and part is None and self._returns_opaque(body):
+            out = self.merge_results(out, 4)
         if len(out) > self.max_disj:
             out = self.merge_results(out, self.max_disj)
         for h in self.return_hooks:
             h(self, fn, len(self.stack), out)
         return out
+
+    def _mark(self, st, v, live, cells, objs, idents, depth=0):
+        """reachability walk over a value: collects vids, heap cells, objects and string identities"""
+        if v is None or depth > 40 or not isinstance(v, tuple) or not v:
+            return
+        k = v[0]
+        if k == 'i':
+            live.add(v[1])
+        elif k in ('t', 'a'):
+            for x in v[1]:
+                self._mark(st, x, live, cells, objs, idents, depth + 1)
+        elif k in ('s', 'clo'):
+            for x in v[2]:
+                self._mark(st, x, live, cells, objs, idents, depth + 1)
+        elif k == 'e':
+            for fs in v[2].values():
+                for x in fs:
+                    if isinstance(x, tuple) and x and x[0] != 'org':
+                        self._mark(st, x, live, cells, objs, idents, depth + 1)
+        elif k == 'str':
+            live.add(v[1].len)
+            idents.add(v[1].ident)
+        elif k == 'slice':
+            live.add(v[1]['len'])
+            if v[1].get('vec') is not None:
+                self._mark_obj(st, v[1]['vec'], live, cells, objs, idents, depth + 1)
+            for x in (v[1].get('elems') or ()):
+                self._mark(st, x, live, cells, objs, idents, depth + 1)
+        elif k == 'r':
+            pl = v[1]
+            if pl[0] == 0 and pl[1] not in cells:
+                cells.add(pl[1])
+                self._mark(st, st.frames.get(0, {}).get(pl[1]), live, cells, objs, idents, depth + 1)
+            for p in pl[2]:
+                if p[0] == 'ix':
+                    self._mark(st, p[1], live, cells, objs, idents, depth + 1)
+        elif k == 'obj':
+            self._mark_obj(st, v[1], live, cells, objs, idents, depth + 1)
+        elif k == 'it':
+            kd = v[1]
+            if kd == 'vec':
+                self._mark_obj(st, v[2], live, cells, objs, idents, depth + 1)
+            for x in v[2:]:
+                if isinstance(x, StrV):
+                    live.add(x.len); idents.add(x.ident)
+                elif isinstance(x, dict) and 'len' in x:
+                    live.add(x['len'])
+                    if x.get('vec') is not None:
+                        self._mark_obj(st, x['vec'], live, cells, objs, idents, depth + 1)
+                elif isinstance(x, tuple):
+                    if x and isinstance(x[0], str):
+                        self._mark(st, x, live, cells, objs, idents, depth + 1)
+                    else:
+                        for y in x:
+                            if isinstance(y, tuple):
+                                self._mark(st, y, live, cells, objs, idents, depth + 1)
+                elif isinstance(x, int) and not isinstance(x, bool) and kd == 'unk':
+                    live.add(x)
+
+    def _mark_obj(self, st, oid, live, cells, objs, idents, depth):
+        if oid in objs:
+            return
+        objs.add(oid)
+        o = st.objs.get(oid)
+        if o is None:
+            return
+        if o[0] == 'String':
+            live.add(o[1].len); idents.add(o[1].ident)
+        elif o[0] in ('Vec', 'Set'):
+            live.add(o[1])
+            if o[0] == 'Vec' and o[3] is not None:
+                self._mark(st, o[3], live, cells, objs, idents, depth + 1)
+            for cell in (st.objs.get(('vl', oid)) or ()):
+                self._mark(st, ('r', cell), live, cells, objs, idents, depth + 1)
+
+    def gc_state(self, st, extra=()):
+        """drop heap cells, objects, interval and ordering entries nothing in the state can reach any more"""
+        if len(st.iv) < max(1500, 2 * st.gcmark) and len(st.objs) < 400:
+            return
+        live, cells, objs, idents = set(), set(), set(), set()
+        for fid, fr in st.frames.items():
+            if fid == 0:
+                continue
+            for l, v in fr.items():
+                if isinstance(l, int) and l >= 0:
+                    self._mark(st, v, live, cells, objs, idents)
+        for v in extra:
+            self._mark(st, v, live, cells, objs, idents)
+        fr0 = st.frames.get(0)
+        if fr0 is not None and len(cells) < len(fr0):
+            st.frames[0] = {c: val for c, val in fr0.items() if c in cells}
+        newobjs = {}
+        for oid, o in st.objs.items():
+            if isinstance(oid, tuple):
+                if oid[0] == 'sf':
+                    if oid[1] in idents:
+                        newobjs[oid] = o
+                        if isinstance(o, dict) and o.get('first_vid') is not None:
+                            live.add(o['first_vid'])
+                elif oid[0] == 'vl':
+                    if oid[1] in objs:
+                        newobjs[oid] = o
+                else:
+                    newobjs[oid] = o
+            elif oid in objs:
+                newobjs[oid] = o
+        st.objs = newobjs
+        for (f, lo, hi) in st.lin:
+            live.update(f.co)
+        for k in st.discr:
+            if isinstance(k, int):
+                live.add(k)
+        live.update(t for t in st.tested if isinstance(t, int))
+        frontier = list(live)
+        for _ in range(2):
+            nxt = []
+            for v in frontier:
+                t = D.TERM.get(v)
+                if t is not None and t[0] != 'const':
+                    for o in t[1:]:
+                        if isinstance(o, int) and o not in live:
+                            live.add(o); nxt.append(o)
+                a = D.AFF.get(v)
+                if a is not None:
+                    for y in a.co:
+                        if y not in live:
+                            live.add(y); nxt.append(y)
+            frontier = nxt
+            if not frontier:
+                break
+        if getattr(self, 'gc_debug', False):
+            print('gc', len(st.iv), '->', sum(1 for v in st.iv if v in live), 'objs', len(st.objs), 'cells', len(st.frames.get(0, {})))
+        st.iv = {v: i for v, i in st.iv.items() if v in live}
+        st.rel = {k: r for k, r in st.rel.items() if k[0] in live and k[1] in live}
+        st.discr = {k: v for k, v in st.discr.items() if (k in live if isinstance(k, int) else (k[1] in live))}
+        st.lazy = {}
+        st.gcmark = len(st.iv)
+
+    def _returns_opaque(self, body):
+        """does the function return only collections / strings / unit (possibly inside Result / Option / tuples)?
+        Such results carry no numeric correlation worth keeping apart: they are joined per shape."""
+        c = self._cfg.get(('opaque', body['id']))
+        if c is not None:
+            return c
+
+        def opaque(ty, depth=0):
+            k = ty.get('k')
+            if k == 'tuple':
+                return all(opaque(t, depth + 1) for t in ty['elems'])
+            if k == 'adt':
+                p = ty['path']
+                if p in OBJ_TYPES:
+                    return True
+                if p in (RESULT, OPTION) and depth < 3:
+                    return opaque(ty['args'][0], depth + 1)
+                return False
+            return False
+        c = opaque(body['locals'][0])
+        self._cfg[('opaque', body['id'])] = c
+        return c
 
     def _relocate(self, st, fid, v, moved, depth=0):
         """references into the returning frame (promoted constants: `_0 = &_1`) are moved to heap cells"""
@@ -1141,35 +1413,101 @@ class Interp:
 
     def _loop_head(self, fid, bb, states, head_acc):
         out = []
+        over = []
+        k = (fid, bb)
+        fn = self.stack[-1][0] if self.stack else None
+        unroll = self.unroll_for.get(fn, self.unroll)
+        if states:
+            need = self._finite_iter_len(states[0], fid)
+            if need is not None and need <= 20:
+                unroll = max(unroll, need + 1)
+            elif need is None and fn not in self.unroll_for and self._has_unbounded_iter(states[0], fid):
+                unroll = 1      # a loop over a collection of unknown length: unrolling only multiplies paths
+        nmax = 0
         for s in states:
-            k = (fid, bb)
             n = s.loops.get(k, 0) + 1
             s.loops[k] = n
-            if n <= self.unroll:
+            if n <= unroll:
                 out.append(s)
-                continue
-            acc = head_acc.get(bb)
-            if acc is None:
-                head_acc[bb] = s
-                out.append(s)
-                continue
-            if self.state_leq(s, acc):
-                continue
-            j = self.join_states(acc, s, widen=n > self.unroll + 2)
-            j.loops[k] = n
-            head_acc[bb] = j
-            out.append(j.clone())
+            else:
+                over.append(s)
+                nmax = max(nmax, n)
+        if over:
+            # trace partitioning: states that differ in the (known) value of a named bool variable are kept apart
+            body = self.bodies.get(fn) if fn else None
+            flags = [l for l, _n in (body.get('names', []) if body else []) if body['locals'][l].get('k') == 'bool'][:3]
+            groups = {}
+            for s in over:
+                key = []
+                fr = s.frames.get(fid, {})
+                for l in flags:
+                    v = fr.get(l)
+                    iv = D.get_iv(s, v[1]) if v is not None and v[0] == 'i' else (0, 1)
+                    key.append(iv[0] if iv[0] == iv[1] else None)
+                groups.setdefault(tuple(key), []).append(s)
+            for key, members in groups.items():
+                hk = (bb, key)
+                acc = head_acc.get(hk)
+                changed = False
+                for s in members:
+                    if acc is None:
+                        acc = s
+                        changed = True
+                        continue
+                    if self.state_leq(s, acc):
+                        continue
+                    acc = self.join_states(acc, s, widen=nmax > unroll + 3)
+                    changed = True
+                if changed:
+                    acc.loops[k] = nmax
+                    head_acc[hk] = acc
+                    out.append(acc.clone())
         return out
+
+    def _finite_iter_len(self, st, fid):
+        """length of the longest known-finite sequence iterator held in a local of the frame (loops driven by it are unrolled fully)"""
+        best = None
+        for l, v in st.frames.get(fid, {}).items():
+            if l == -1 or l == -2 or v is None:
+                continue
+            n = self._iter_len(st, v)
+            if n is not None and (best is None or n > best):
+                best = n
+        return best
+
+    def _has_unbounded_iter(self, st, fid):
+        for l, v in st.frames.get(fid, {}).items():
+            if l not in (-1, -2) and v is not None and v[0] == 'it' and v[1] in ('vec', 'unk', 'strs', 'chars', 'anyof', 'sub'):
+                return True
+        return False
+
+    def _iter_len(self, st, v, depth=0):
+        if v is None or depth > 3:
+            return None
+        if v[0] == 'it':
+            if v[1] == 'seq':
+                return len(v[2])
+            if v[1] in ('enum', 'rev'):
+                return self._iter_len(st, v[2], depth + 1)
+            if v[1] == 'zip':
+                a, b = self._iter_len(st, v[2], depth + 1), self._iter_len(st, v[3], depth + 1)
+                return a if b is None else b if a is None else min(a, b)
+            return None
+        if v[0] == 's' and v[1] in ('std::ops::Range', 'std::ops::RangeInclusive') and v[2][0][0] == 'i' and v[2][1][0] == 'i':
+            (sl, sh), (el, eh) = D.get_iv(st, v[2][0][1]), D.get_iv(st, v[2][1][1])
+            if sl == sh and el == eh and sl != -INF and el != INF:
+                return max(0, int(el - sl) + 1)
+        return None
 
     def shape_key(self, v, depth=0):
         if v is None:
             return None
         k = v[0]
         if k == 'e':
-            return ('e', v[1], tuple(sorted((vi, tuple(self.shape_key(f, depth + 1) for f in fs) if depth < 2 else None) for vi, fs in v[2].items())))
-        if k == 't' and depth < 2:
+            return ('e', v[1], tuple(sorted((vi, tuple(self.shape_key(f, depth + 1) for f in fs) if depth < 5 else None) for vi, fs in v[2].items())))
+        if k == 't' and depth < 5:
             return ('t', tuple(self.shape_key(f, depth + 1) for f in v[1]))
-        if k == 's' and depth < 2:
+        if k == 's' and depth < 5:
             return ('s', v[1], tuple(self.shape_key(f, depth + 1) for f in v[2]), v[3])
         return k
 
@@ -1192,11 +1530,28 @@ class Interp:
         return out
 
     def merge_states(self, states, limit):
-        s = states[0]
-        for s2 in states[1:]:
-            s = self.join_states(s, s2)
+        """too many disjuncts queue for one block: join those whose innermost frame has the same shape
+        (same enum variants / constants structure), so that e.g. (unit, value) pairs stay correlated"""
+        groups = {}
+        for s in states:
+            fids = [f for f in s.frames if f != 0]
+            fr = s.frames[max(fids)] if fids else {}
+            key = tuple((l, self.shape_key(v)) for l, v in sorted((k, v) for k, v in fr.items() if isinstance(k, int) and k >= 0))
+            groups.setdefault(key, []).append(s)
+        out = []
+        for members in groups.values():
+            s = members[0]
+            for s2 in members[1:]:
+                s = self.join_states(s, s2)
+            out.append(s)
         self.note('block disjuncts merged')
-        return [s]
+        if len(out) > limit:
+            s = out[0]
+            for s2 in out[1:]:
+                s = self.join_states(s, s2)
+            self.note('block disjuncts merged wholesale')
+            return [s]
+        return out
 
     def exec_block(self, st, fid, fn, body, bb, results):
         """returns list of (next_bb, state)"""
@@ -1223,7 +1578,7 @@ class Interp:
         rv = stmt['rv']
         r = rv['r']
         pl = stmt['place']
-        pty = body['locals'][pl['l']] if not pl['p'] else self.place_ty(st, fid, pl)
+        pty = self.local_ty(st, fid, pl['l']) if not pl['p'] else self.place_ty(st, fid, pl)
         if r == 'use':
             v = self.operand(st, fid, rv['op'])
         elif r == 'bin':
@@ -1480,8 +1835,12 @@ class Interp:
         decl = f.get('decl')
         args = [self.operand(st, fid, a) for a in t['args']]
         dest = t['dest']
-        dty = body['locals'][dest['l']] if not dest['p'] else self.place_ty(st, fid, dest)
-        site = {'fn': fn, 'bb': bb, 'span': t.get('span'), 'callee': cid or decl, 'tyargs': f.get('tyargs'), 'expn': t.get('expn'),
+        dty = self.local_ty(st, fid, dest['l']) if not dest['p'] else self.place_ty(st, fid, dest)
+        sub_ = st.frames[fid].get(-2)
+        tya_ = f.get('tyargs')
+        if sub_ and tya_:
+            tya_ = [self.subst_ty(x, sub_) for x in tya_]
+        site = {'fn': fn, 'bb': bb, 'span': t.get('span'), 'callee': cid or decl, 'tyargs': tya_, 'expn': t.get('expn'),
                 'dty': dty, 'fid': fid, 'decl': decl}
         outs = self.do_call(st, cid, decl, args, dty, site, f)
         if t['target'] is None:
